@@ -1053,9 +1053,10 @@ Fixpoint scan (o c : ascii) (s : string) (d : nat) : option nat :=
 Definition balanced (o c : ascii) (s : string) : bool :=
   match scan o c s 0 with Some 0 => true | _ => false end.
 
-(* what harness/c12.py evaluates per program: the model's text, whether the program has the
-   shape / lexical hypotheses of the theorems, the two balance checks on the text, and whether
-   the marks of the text are a permutation of the inventory (decided by counting) *)
+(* what harness/c12.py evaluates per program: whether the model's text is the real translator's
+   (`expected`), whether the program has the shape / lexical hypotheses of the theorems, the
+   two balance checks ON THE REAL TEXT, and whether the marks of the model's text are a
+   permutation of the inventory (decided by counting) *)
 Definition mark_eqb (a b : mark) : bool :=
   match a, b with
   | MDecl k1 s1, MDecl k2 s2 =>
@@ -1088,5 +1089,9 @@ Definition c12_report (pkg : string) (p : pprogram) (expected : string)
   let r := print_segs pkg p in
   let t := flatten r in
   (String.eqb t expected, wf_program p, clean_program pkg p,
-   balanced "("%char ")"%char t, balanced "{"%char "}"%char t,
+   balanced "("%char ")"%char expected, balanced "{"%char "}"%char expected,
    same_marks (marks r) (program_inventory p)).
+
+(* bracket balance of a text of any language: (), {}, [] *)
+Definition balance3 (t : string) : bool * bool * bool :=
+  (balanced "("%char ")"%char t, balanced "{"%char "}"%char t, balanced "["%char "]"%char t).
